@@ -318,9 +318,16 @@ Definition message_decode (m0 : message) (bs : bytes) : option message :=
   | None => None
   end.
 
-(* Message.UnmarshalBinary AS WRITTEN: (receiver afterwards, error reported?).
-   "if err := cbor.Unmarshal(data, deserialized); err != nil { return nil }" *)
+(* Message.UnmarshalBinary: (receiver afterwards, error reported?).  Since fix 3cad471 the decoding error is
+   returned ("return err"); the receiver is left as it was in that case. *)
 Definition message_unmarshal (m0 : message) (bs : bytes) : message * bool :=
+  match message_decode m0 bs with
+  | Some m => (m, false)
+  | None => (m0, true)
+  end.
+
+(* before the fix: "if err := cbor.Unmarshal(data, deserialized); err != nil { return nil }" *)
+Definition message_unmarshal_v0 (m0 : message) (bs : bytes) : message * bool :=
   match message_decode m0 bs with
   | Some m => (m, false)
   | None => (m0, false)
@@ -346,9 +353,23 @@ Definition point_encode (P : point) : bytes :=
   | Some (x, y) => (if Z.even y then 2 else 3) :: bytes32_of_Z x
   end.
 
-(* Secp256k1Point.UnmarshalBinary AS WRITTEN: 33 bytes, x < p, x^3+7 a square; the ordinate is the odd root
-   iff the first byte is 3 -- the first byte is not otherwise looked at *)
+(* Secp256k1Point.UnmarshalBinary: 33 bytes, first byte 2 or 3 (since fix 96ab1f0), x < p, x^3+7 a square;
+   the ordinate is the odd root iff the first byte is 3 *)
 Definition point_decode (b : bytes) : option point :=
+  match b with
+  | pre :: xb =>
+      if negb (Nat.eqb (length xb) 32) then None
+      else if negb ((pre =? 2) || (pre =? 3)) then None
+      else
+        match lift_x (Z_of_bytes xb) with
+        | Some (Some (x, y)) => Some (Some (x, if pre =? 3 then fneg y else y))
+        | _ => None
+        end
+  | [] => None
+  end.
+
+(* before the fix the first byte was only compared with 3: anything else meant "even" *)
+Definition point_decode_v0 (b : bytes) : option point :=
   match b with
   | pre :: xb =>
       if negb (Nat.eqb (length xb) 32) then None
@@ -391,9 +412,8 @@ Fixpoint decode_points (l : list cbor) : option (list point) :=
   | _ => None
   end.
 
-(* UnmarshalBinary AS WRITTEN: binary.BigEndian.Uint32(data) panics below 4 bytes; the count only sizes the
-   slice of pre-made points that cbor decodes into: an array longer than the count fails (the extra elements
-   are nil interfaces), a shorter one is accepted *)
+(* UnmarshalBinary after the length checks: the count sizes the slice of pre-made points that cbor decodes
+   into: an array longer than the count fails (the extra elements are nil interfaces), a shorter one is accepted *)
 Definition exponent_decode_body (size : N) (cb : bytes) : outcome (bool * list point) :=
   match decode cb with
   | Some (CMap [ (CText k1, v1); (CText k2, v2) ], _) =>
@@ -415,7 +435,15 @@ Definition exponent_decode_body (size : N) (cb : bytes) : outcome (bool * list p
   | None => Err 1
   end.
 
+(* since fix 7b3b4da: fewer than 4 bytes is an error, and so is a count larger than the input
+   (every coefficient takes more than one byte) *)
 Definition exponent_decode (bs : bytes) : outcome (bool * list point) :=
+  if (length bs <? 4)%nat then Err 1
+  else if lenN bs <? be_val (firstn 4 bs) then Err 1
+  else exponent_decode_body (be_val (firstn 4 bs)) (skipn 4 bs).
+
+(* before the fix: binary.BigEndian.Uint32(data) panics below 4 bytes; the count only sized an allocation *)
+Definition exponent_decode_v0 (bs : bytes) : outcome (bool * list point) :=
   if (length bs <? 4)%nat then Panic
   else exponent_decode_body (be_val (firstn 4 bs)) (skipn 4 bs).
 
@@ -478,8 +506,15 @@ Section Checks.
   Variable prime_test : Z -> bool.
   Variable act_on_base : Z -> point.
 
-  (* paillier.ValidatePrime: nil, bit length, p = 3 mod 4, (p-1)/2 probably prime.  p itself is not tested. *)
+  (* paillier.ValidatePrime: nil, bit length, p = 3 mod 4, (p-1)/2 probably prime and (since fix 8307514)
+     p itself probably prime *)
   Definition validate_prime (p : option Z) : bool :=
+    match p with
+    | None => false
+    | Some p => (bitlen p =? bits_blum_prime) && (p mod 4 =? 3) && prime_test (p / 2) && prime_test p
+    end.
+  (* before the fix p itself was never tested *)
+  Definition validate_prime_v0 (p : option Z) : bool :=
     match p with
     | None => false
     | Some p => (bitlen p =? bits_blum_prime) && (p mod 4 =? 3) && prime_test (p / 2)
@@ -510,8 +545,16 @@ Section Checks.
 
   Definition has_id (id : bytes) (ps : list pub_c) : bool := existsb (fun q => bytes_eqb (pc_id q) id) ps.
 
-  (* the loop over cm.Public; NN = P*Q; error codes: 5 entry does not decode, 6 duplicate, 7 ValidateN,
-     8 Pedersen, 9 identity point *)
+  (* types.RID.Validate (used for RID and ChainKey): 32 bytes, not all zero *)
+  Definition rid_validate (r : option bytes) : bool :=
+    match r with
+    | Some b => Nat.eqb (length b) sec_bytes && negb (all_zero b)
+    | None => false
+    end.
+
+  (* the loop over cm.Public (since fix 3216d4d); NN = P*Q; error codes: 5 entry does not decode, 6 duplicate,
+     17 nil S / T / N ("missing fields"), 7 ValidateN, 8 Pedersen (now also for the own entry), 9 identity point.
+     A panic while an entry is decoded is turned into an error by the deferred recover (code 18, see below). *)
   Fixpoint process_publics (id : bytes) (ecdsa elgamal NN : Z) (l : list (outcome pub_m)) (acc : list pub_c)
     : outcome (list pub_c) :=
     match l with
@@ -520,9 +563,63 @@ Section Checks.
     | Err c :: _ => Err (if (c =? 100)%N then 100%N else 5%N)
     | Ok p :: l' =>
         if has_id (pm_id p) acc then Err 6
+        else if match pm_S p, pm_T p with Some _, Some _ => false | _, _ => true end then Err 17
         else if bytes_eqb (pm_id p) id then
-          (* "handle our own key separately": points and modulus recomputed from the secrets, S and T copied *)
-          process_publics id ecdsa elgamal NN l'
+          (* "handle our own key separately": points and modulus recomputed from the secrets; S, T validated *)
+          if negb (validate_pedersen (Some NN) (pm_S p) (pm_T p)) then Err 8
+          else
+            process_publics id ecdsa elgamal NN l'
+              (acc ++ [mkPubC (pm_id p) (act_on_base ecdsa) (act_on_base elgamal) NN (pm_S p) (pm_T p)])
+        else
+          match pm_N p with
+          | None => Err 17
+          | Some n =>
+              if negb (validate_N (pm_N p)) then Err 7
+              else if negb (validate_pedersen (pm_N p) (pm_S p) (pm_T p)) then Err 8
+              else if is_identity (pm_ecdsa p) || is_identity (pm_elgamal p) then Err 9
+              else
+                process_publics id ecdsa elgamal NN l'
+                  (acc ++ [mkPubC (pm_id p) (pm_ecdsa p) (pm_elgamal p) n (pm_S p) (pm_T p)])
+          end
+    end.
+
+  (* config.UnmarshalBinary after cbor.Unmarshal of the outer struct, in the order of the Go code.
+     codes: 12 nil P / Q ("missing fields"), 13 RID, 14 chain key, 2 zero secret, 3 prime P, 4 prime Q, 15 P = Q,
+     16 own modulus (ValidateN), 5..9 and 17 see above, 10 threshold, 11 self missing *)
+  Definition config_checks (cm : config_m) : outcome config_c :=
+    match cm_P cm, cm_Q cm with
+    | Some P, Some Q =>
+        if negb (rid_validate (cm_rid cm)) then Err 13
+        else if negb (rid_validate (cm_chain cm)) then Err 14
+        else if (cm_ecdsa cm =? 0) || (cm_elgamal cm =? 0) then Err 2
+        else if negb (validate_prime (cm_P cm)) then Err 3
+        else if negb (validate_prime (cm_Q cm)) then Err 4
+        else if P =? Q then Err 15
+        else if negb (validate_N (Some (P * Q))) then Err 16
+        else
+          match process_publics (cm_id cm) (cm_ecdsa cm) (cm_elgamal cm) (P * Q) (cm_public cm) [] with
+          | Ok ps =>
+              if negb (valid_threshold (cm_threshold cm) (Z.of_nat (length ps))) then Err 10
+              else if negb (has_id (cm_id cm) ps) then Err 11
+              else Ok (mkConfigC (cm_id cm) (cm_threshold cm) (cm_ecdsa cm) (cm_elgamal cm) P Q
+                                 (cm_rid cm) (cm_chain cm) ps)
+          | Err c => Err c
+          | Panic => Panic
+          end
+    | _, _ => Err 12
+    end.
+
+  (* ---- the code before fix 3216d4d, kept for the regression examples (Properties/C15.v, *_v0) ---- *)
+  Fixpoint process_publics_v0 (id : bytes) (ecdsa elgamal NN : Z) (l : list (outcome pub_m)) (acc : list pub_c)
+    : outcome (list pub_c) :=
+    match l with
+    | [] => Ok acc
+    | Panic :: _ => Panic
+    | Err c :: _ => Err (if (c =? 100)%N then 100%N else 5%N)
+    | Ok p :: l' =>
+        if has_id (pm_id p) acc then Err 6
+        else if bytes_eqb (pm_id p) id then
+          process_publics_v0 id ecdsa elgamal NN l'
             (acc ++ [mkPubC (pm_id p) (act_on_base ecdsa) (act_on_base elgamal) NN (pm_S p) (pm_T p)])
         else if negb (validate_N (pm_N p)) then Err 7
         else if negb (validate_pedersen (pm_N p) (pm_S p) (pm_T p)) then Err 8
@@ -531,21 +628,19 @@ Section Checks.
           match pm_N p with
           | None => Err 7
           | Some n =>
-              process_publics id ecdsa elgamal NN l'
+              process_publics_v0 id ecdsa elgamal NN l'
                 (acc ++ [mkPubC (pm_id p) (pm_ecdsa p) (pm_elgamal p) n (pm_S p) (pm_T p)])
           end
     end.
 
-  (* config.UnmarshalBinary after cbor.Unmarshal of the outer struct, in the order of the Go code.
-     codes: 2 zero secret, 3 prime P, 4 prime Q, 5..9 see above, 10 threshold, 11 self missing *)
-  Definition config_checks (cm : config_m) : outcome config_c :=
+  Definition config_checks_v0 (cm : config_m) : outcome config_c :=
     if (cm_ecdsa cm =? 0) || (cm_elgamal cm =? 0) then Err 2
-    else if negb (validate_prime (cm_P cm)) then Err 3
-    else if negb (validate_prime (cm_Q cm)) then Err 4
+    else if negb (validate_prime_v0 (cm_P cm)) then Err 3
+    else if negb (validate_prime_v0 (cm_Q cm)) then Err 4
     else
       match cm_P cm, cm_Q cm with
       | Some P, Some Q =>
-          match process_publics (cm_id cm) (cm_ecdsa cm) (cm_elgamal cm) (P * Q) (cm_public cm) [] with
+          match process_publics_v0 (cm_id cm) (cm_ecdsa cm) (cm_elgamal cm) (P * Q) (cm_public cm) [] with
           | Ok ps =>
               if negb (valid_threshold (cm_threshold cm) (Z.of_nat (length ps))) then Err 10
               else if negb (has_id (cm_id cm) ps) then Err 11
@@ -653,15 +748,34 @@ Section Unmarshal.
   Variable prime_test : Z -> bool.
   Variable act_on_base : Z -> point.
 
-  (* config.UnmarshalBinary AS WRITTEN on the modelled shapes.  Err 1 = cbor decoding error,
-     Err 100 = outside the modelled shape (no claim), Panic = nil dereference / saferith panic *)
+  (* config.UnmarshalBinary on the modelled shapes.  Err 1 = cbor decoding error, Err 100 = outside the
+     modelled shape (no claim).  Since fix 3216d4d a deferred recover() turns every panic raised while decoding
+     (null in an interface-typed field, saferith "Modulus is empty") into the error "malformed data" (Err 18),
+     and a nil *configMarshal (CBOR null) is "missing fields" (Err 12): the function never panics. *)
+  Definition recovered {A} (o : outcome A) : outcome A :=
+    match o with Panic => Err 18 | _ => o end.
+
   Definition config_unmarshal (bs : bytes) : outcome config_c :=
     match decode bs with
     | None => Err 1
-    | Some (CNull, _) => Panic      (* cbor.Unmarshal(data, &cm) sets cm = nil; cm.ECDSA dereferences it *)
+    | Some (CNull, _) => Err 12
+    | Some (t, _) =>
+        recovered
+          match config_of_tree t with
+          | Ok cm => config_checks prime_test act_on_base cm
+          | Err c => Err c
+          | Panic => Panic
+          end
+    end.
+
+  (* before the fix: no recover, the nil *configMarshal was dereferenced *)
+  Definition config_unmarshal_v0 (bs : bytes) : outcome config_c :=
+    match decode bs with
+    | None => Err 1
+    | Some (CNull, _) => Panic
     | Some (t, _) =>
         match config_of_tree t with
-        | Ok cm => config_checks prime_test act_on_base cm
+        | Ok cm => config_checks_v0 prime_test act_on_base cm
         | Err c => Err c
         | Panic => Panic
         end
@@ -682,6 +796,8 @@ Definition valid_pub (p : pub_c) : Prop :=
   valid_pedersen (pc_N p) (pc_S p) (pc_T p).
 
 Definition valid_rid (r : option bytes) : Prop := exists b, r = Some b /\ length b = sec_bytes.
+(* what Validate adds on top: the value is not all zero *)
+Definition nonzero_rid (r : option bytes) : Prop := exists b, r = Some b /\ all_zero b = false.
 
 Definition valid_config (c : config_c) : Prop :=
   0 < c_ecdsa c < secp_q /\ 0 < c_elgamal c < secp_q /\
